@@ -273,7 +273,7 @@ def replay_harness(prop, h, fcs, logs_dir):
             for m in re.finditer(r"#\[test\]\nfn (kani_concrete_playback_\w+)\(\) \{.*?\n\}", txt, re.S):
                 tests.append({"file": fn, "name": m.group(1), "code": m.group(0)})
         panics = re.findall(r"panicked at (.*?):\n(.*)", out)
-        rp_dir = os.path.join(VERIF, "evidence", "replay")
+        rp_dir = os.path.join(os.environ.get("VERIF_EVIDENCE_DIR") or os.path.join(VERIF, "evidence"), "replay")
         os.makedirs(rp_dir, exist_ok=True)
         path = os.path.join(rp_dir, "%s-%s.json" % (prop, h))
         json.dump({
@@ -380,8 +380,9 @@ def finish(prop, tier, seed, t0, spec, results, smt_results, inconclusive, confi
         },
         "assumptions": assumptions,
     }
-    os.makedirs(os.path.join(VERIF, "evidence"), exist_ok=True)
-    json.dump(ev, open(os.path.join(VERIF, "evidence", prop + ".json"), "w"), indent=1)
+    evdir = os.environ.get("VERIF_EVIDENCE_DIR") or os.path.join(VERIF, "evidence")  # mutant campaigns write elsewhere
+    os.makedirs(evdir, exist_ok=True)
+    json.dump(ev, open(os.path.join(evdir, prop + ".json"), "w"), indent=1)
     print("[%s] tier=%s exit=%d harnesses=%d ok=%d checks=%d covers_sat=%d smt_ok=%d/%d wall=%.0fs" % (
         prop, tier, code, len(results), harness_ok, n_checks, covers_sat, smt_ok, len(smt_results), wall))
     return code
